@@ -67,6 +67,9 @@ fn main() {
         rayon::ThreadPoolBuilder::new().stack_size(8 << 20).build_global().ok();
     }
     run::install_panic_hook();
+    if args[2] != "worker" {
+        run::start_stall_watchdog();
+    }
     let known = engine::load_known(&root);
     let mut ctx = Ctx::new(prop, tier, seed, root, known, replay);
     ctx.worker = worker;
